@@ -2,6 +2,7 @@
 # runs every claimed check (tier $1, default quick) and validates the evidence files
 cd "$(dirname "$0")/.."
 tier="${1:-quick}"
+mkdir -p work
 ids=$(python3 -c "import json;print(' '.join(c['property_id'] for c in json.load(open('MANIFEST.json'))['checks']))")
 for id in $ids; do
   s=$(date +%s)
